@@ -188,7 +188,7 @@ def read_sav(path):
     return {s: dict(c[s]) for s in c.sections()}
 
 
-def run_main(root, argv, events=(), fail_stderr_after=None, clock_step=None, stdin_isatty=None):
+def run_main(root, argv, events=(), fail_stderr_after=None, clock_step=None, stdin_isatty=None, stdout_fail_after=None):
     """Runs the real pcfg_guesser.main() with __file__ pointing into `root` (so Rules/ and *.sav live there).
 
     root: scratch directory containing Rules/<name>/...; argv: command line without the program name.
@@ -282,6 +282,14 @@ def run_main(root, argv, events=(), fail_stderr_after=None, clock_step=None, std
 
     sav_before = _sav_text()
     out, err = io.StringIO(), io.StringIO()
+    if stdout_fail_after is not None:
+        class _GoneConsumer(io.StringIO):
+            # a stdout whose reader goes away: accepts `stdout_fail_after` complete lines, every later write fails (EPIPE)
+            def write(self_, text):
+                if self_.getvalue().count('\n') >= stdout_fail_after:
+                    raise BrokenPipeError(32, 'Broken pipe (harness: the consumer of stdout went away)')
+                return super().write(text)
+        out = _GoneConsumer()
     saved['sr_time'] = sr.time
     if clock_step is not None:
         # harness-owned clock for the status report: every reading is clock_step seconds after the previous one, so elapsed
